@@ -53,6 +53,12 @@ class TermEncoder:
         self.prefixes = LookupEncoder(lookup_size=lookup_preset.max_prefixes)
         self.datatypes = LookupEncoder(lookup_size=lookup_preset.max_datatypes)
 
+    def begin_row(self) -> None:
+        """Mark the start of a new stream row (statement, graph start, namespace)."""
+        self.names.lookup.begin_row()
+        self.prefixes.lookup.begin_row()
+        self.datatypes.lookup.begin_row()
+
     def encode_iri_indices(self, iri_string: str) -> tuple[Rows, int, int]:
         """
         Encode lookup indices for IRI.
@@ -304,6 +310,7 @@ def encode_triple(
     """
     triple = jelly.RdfTriple()
     terms = iter(terms)
+    term_encoder.begin_row()
     rows = encode_spo(terms, term_encoder, repeated_terms, triple)
     row = jelly.RdfStreamRow(triple=triple)
     rows.append(row)
@@ -329,6 +336,7 @@ def encode_quad(
     """
     terms = iter(terms)
     quad = jelly.RdfQuad()
+    term_encoder.begin_row()
     rows = encode_spo(terms, term_encoder, repeated_terms, quad)
     g = next(terms)
     if repeated_terms[Slot.graph] != g:
@@ -358,6 +366,7 @@ def encode_namespace_declaration(
 
     """
     iri = jelly.RdfIri()
+    term_encoder.begin_row()
     [*rows] = term_encoder.encode_iri(value, iri=iri)
     declaration = jelly.RdfNamespaceDeclaration(name=name, value=iri)
     row = jelly.RdfStreamRow(namespace=declaration)
